@@ -168,11 +168,13 @@ func (sf *SpecFile) ParseSpecFile(path string) error {
 				if cur == nil {
 					return fmt.Errorf("%s: 'ghost at' outside func", loc)
 				}
-				a, err := parseAssert(r.text, path, r.line)
-				if err != nil {
-					return fmt.Errorf("%s: %v", loc, err)
+				gt := strings.TrimSpace(strings.TrimSpace(r.text)[3:])
+				ci := strings.Index(gt, ": ")
+				if ci < 0 {
+					return fmt.Errorf("%s: 'ghost at <anchor>: name = expr' expected", loc)
 				}
-				name, rhs, ok := strings.Cut(a.C.Text, "=")
+				anchor, body := strings.TrimSpace(gt[:ci]), gt[ci+2:]
+				name, rhs, ok := strings.Cut(body, "=")
 				if !ok || strings.HasPrefix(rhs, "=") {
 					return fmt.Errorf("%s: 'ghost at <anchor>: name = expr' expected", loc)
 				}
@@ -180,9 +182,12 @@ func (sf *SpecFile) ParseSpecFile(path string) error {
 				if err != nil {
 					return fmt.Errorf("%s: %v", loc, err)
 				}
-				a.Update = strings.TrimSpace(name)
-				a.C.Expr = e
-				a.C.Kind = "ghost"
+				a := &AssertSpec{Anchor: anchor, Update: strings.TrimSpace(name)}
+				if j := strings.LastIndex(anchor, "#"); j > 0 {
+					fmt.Sscanf(anchor[j+1:], "%d", &a.Occ)
+					a.Anchor = anchor[:j]
+				}
+				a.C = &Clause{Kind: "ghost", Text: body, Expr: e, Line: r.line, File: path}
 				curLoop = nil
 				cur.Asserts = append(cur.Asserts, a)
 				continue
